@@ -50,3 +50,36 @@ Theorem C06_frame_gas_le_supplied : forall W M HT can_transfer transfer balance_
   r_gas r <= gas.
 Proof. exact call_gas_le. Qed.
 Print Assumptions C06_frame_gas_le_supplied.
+
+From Verif Require Import Proofs.Exec_gas.
+(** NO FRAME EVER RETURNS MORE GAS THAN IT WAS GIVEN — for every entry point (interpreter loop, CALL, CALLCODE,
+    DELEGATECALL, STATICCALL, CREATE/CREATE2), every call tree, depth, Aspect behaviour and provider, from purely
+    LOCAL assumptions: an instruction never increases the gas its frame holds ([mgas] of the machine state), the gas a
+    sub-call hands back is credited at most once (resuming after a call that returned at most what it was given does not
+    exceed the gas held before the call instruction), an Aspect reports no more leftover than it was given, a precompile
+    returns no more than it was given.  [PG] (Proofs/Exec_gas.v) is the conjunction over the seven entry points; proved by
+    mutual induction on fuel.  (This removes the assumption about nested interpreter runs that
+    C06_frame_gas_le_supplied still carries.) *)
+Theorem C06_no_frame_gains_gas : forall W M HT can_transfer transfer balance_of exists_acct create_account code_of collides get_nonce set_nonce acl_add set_code touch is_homestead is_eip158 is_berlin is_london max_code_size is_precompile precompile local_step init_machine keccak artela jp_on debug asp_logger bound aspect (mgas : M -> N),
+  (forall fc g h, mgas (init_machine fc g h) <= g) ->
+  (forall d fc m w,
+    match local_step d fc m w with
+    | SNext _ _ _ m' _ _ => mgas m' <= mgas m
+    | SDone _ _ _ _ g _ _ _ => g <= mgas m
+    | SCall _ _ _ _ _ _ gas _ _ _ _ resume => forall r, r_gas r <= gas -> mgas (resume r) <= mgas m
+    | SCreate _ _ _ _ _ gas _ _ _ _ _ resume => forall r a, r_gas r <= gas -> mgas (resume r a) <= mgas m
+    | SJournal _ _ _ _ _ resume => forall r, mgas (resume r) <= mgas m
+    end) ->
+  aspect_sane aspect ->
+  (forall a c i g, r_gas (precompile a c i g) <= g) ->
+  forall fuel, PG W M HT can_transfer transfer balance_of exists_acct create_account code_of collides get_nonce set_nonce acl_add set_code touch is_homestead is_eip158 is_berlin is_london max_code_size is_precompile precompile local_step init_machine keccak artela jp_on debug asp_logger bound aspect mgas fuel.
+Proof. exact frames_never_gain_gas. Qed.
+Print Assumptions C06_no_frame_gains_gas.
+
+(** non-vacuity: the local assumptions are satisfiable, e.g. by the script instance's machine on a script whose steps
+    charge no more than the frame holds (checked here on a one-instruction machine), by an Aspect that burns gas, and by
+    the identity precompile *)
+Example C06_local_assumptions_inhabited :
+  (forall (fc : fctx) (g : N) (h : unit), (fun (m : N) => m) ((fun _ g _ => g) fc g h) <= g) /\
+  aspect_sane (fun (_ : nat) (_ : bool) (_ : N) (g : N) (_ : jpin) => ([] : bytes, g - 10, None : option String.string)).
+Proof. split; [intros; lia|]. intros n pre a g p. cbn. lia. Qed.
